@@ -215,21 +215,24 @@ Section WithTable.
   Definition arith_bop (o : arith) : bop :=
     match o with Add => OAdd | Sub => OSub | Mul => OMul | TrueDiv => ODiv | FloorDiv => ODiv end.
 
+  (* what the dispatcher method does with the promoted operands *)
+  Definition finish_arith (r : repairs) (o : arith) (t : ety) (ea eb : expr) : res :=
+    match o with
+    | FloorDiv =>
+        match mk_bin ODiv t ea eb t with
+        | Ok c _ =>
+            if negb (is_int t) then (if uop_accepts OFloor t then Ok (EUn OFloor t c) t else Err EInference)
+            else if fix_floordiv r && is_sint t then Ok (floor_fix t ea eb c) t
+            else Ok c t
+        | other => other
+        end
+    | _ => mk_bin (arith_bop o) t ea eb t
+    end.
+
   Definition disp_arith (r : repairs) (s : setting) (o : arith) (x y : operand) : res :=
     match promote s (match o with TrueDiv => true | _ => false end) x y with
     | inr e => Err e
-    | inl (ea, eb, t) =>
-        match o with
-        | FloorDiv =>
-            match mk_bin ODiv t ea eb t with
-            | Ok c _ =>
-                if negb (is_int t) then (if uop_accepts OFloor t then Ok (EUn OFloor t c) t else Err EInference)
-                else if fix_floordiv r && is_sint t then Ok (floor_fix t ea eb c) t
-                else Ok c t
-            | other => other
-            end
-        | _ => mk_bin (arith_bop o) t ea eb t
-        end
+    | inl (ea, eb, t) => finish_arith r o t ea eb
     end.
 
   (* and_/or_/xor/not_/neg do not promote: the operands go to the operator constructor as they are; a non-Var is
@@ -382,3 +385,55 @@ Definition operand_pairs (ts : list ety) : list (operand * operand) :=
   list_prod (map OVar ts) (map OVar ts)
   ++ list_prod (map OVar ts) (scalar_kinds ts)
   ++ list_prod (scalar_kinds ts) (map OVar ts).
+
+(* representative of an operand kind (scalar values replaced by 1) *)
+Definition repr (x : operand) : operand :=
+  match x with OVar t => OVar t | OPyInt _ => OPyInt 1 | OPyFloat => OPyFloat | ONp t _ => ONp t 1 end.
+
+(* ------------------------------------------------------------- finite checks over the regenerated numpy tables *)
+Section Checks.
+  Variable rt : tk -> tk -> option ety.                    (* np.result_type *)
+  Variable np : arith -> tk -> tk -> option ety.           (* dtype of numpy's own  x <op> y *)
+
+  (* type promotion on: the dispatcher's result element type is numpy's, for every operator and operand-kind pair *)
+  Definition promo_case_ok (r : repairs) (c : bool) (o : arith) (xy : operand * operand) : bool :=
+    let '(x, y) := xy in
+    if c || (is_var x && is_var y) then
+      match disp_arith rt r (mk_setting true c) o x y with
+      | Ok _ t => opt_ety_eqb (np o (tk_of x) (tk_of y)) (Some t)
+      | _ => false
+      end
+    else true.
+  Definition check_promo : bool :=
+    forallb (fun r => forallb (fun c => forallb (fun o =>
+      forallb (promo_case_ok r c o) (operand_pairs numeric_ety)) all_arith) [true; false]) [pinned; repaired].
+
+  (* type promotion off: keeping the Var's element type agrees with numpy whenever the other operand is a Var of the
+     same type or a Python scalar, except for / on integers (documented: integer Div; numpy gives float64) *)
+  Definition numpy_claim (o : arith) (t : ety) : bool := match o with TrueDiv => is_float t | _ => true end.
+  Definition nopromo_case_ok (o : arith) (t : ety) : bool :=
+    if numpy_claim o t then
+      opt_ety_eqb (np o (TE t) (TE t)) (Some t) && opt_ety_eqb (np o (TE t) TWI) (Some t) && opt_ety_eqb (np o TWI (TE t)) (Some t)
+      && (if is_float t then opt_ety_eqb (np o (TE t) TWF) (Some t) && opt_ety_eqb (np o TWF (TE t)) (Some t) else true)
+    else true.
+  Definition check_nopromo : bool := forallb (fun o => forallb (nopromo_case_ok o) numeric_ety) all_arith.
+
+  (* integer promotion never loses values: the integer result type contains both operand types *)
+  Definition tk_fits (x : tk) (t : ety) : bool :=
+    match x with TE a => (lo t <=? lo a) && (hi a <=? hi t) | _ => true end.
+  Definition int_tks : list tk := map TE (int_ety ++ [TB]) ++ [TWI].
+  Definition lossless_case_ok (xy : tk * tk) : bool :=
+    let '(x, y) := xy in
+    match rt x y with
+    | Some t => if is_int t then tk_fits x t && tk_fits y t else true
+    | None => true
+    end.
+  Definition check_lossless : bool := forallb lossless_case_ok (list_prod int_tks int_tks).
+
+  (* diagnostics for the harness: the entries on which a check fails *)
+  Definition promo_failures : list (Z * Z * Z * Z) :=
+    flat_map (fun '(ri, r) => flat_map (fun c => flat_map (fun o =>
+      flat_map (fun '(i, xy) => if promo_case_ok r c o xy then [] else [(ri, b2z c, arith_code o, i)])
+               (combine (map Z.of_nat (seq 0 (length (operand_pairs numeric_ety)))) (operand_pairs numeric_ety)))
+      all_arith) [true; false]) [(0, pinned); (1, repaired)].
+End Checks.
